@@ -27,7 +27,7 @@ type sectorCtx struct {
 }
 
 func runSector(b *harness.B, share, shares int, light bool) {
-	nSec := b.Pick(5, 36)
+	nSec := b.Pick(10, 150)
 	if light {
 		nSec = 2
 	}
